@@ -184,6 +184,25 @@ def structural_probes():
         ("isotonic bootstraps 0", lambda: isotonic_fit(f.values, o.values, bootstraps=0), "rej"),
         ("isotonic bootstraps 1", lambda: isotonic_fit(f.values, o.values, bootstraps=1), "ok"),
     ]
+    # guards must look at labelled values: inputs stored in a different coordinate order / containing NaN elsewhere
+    lo = xr.DataArray([1.0, 2.0, 3.0, 4.0], dims="x", coords={"x": [0, 1, 2, 3]})
+    up_rev = (lo + 1).isel(x=[3, 2, 1, 0])                       # same labels, reversed storage: a valid interval everywhere
+    up_cross = (lo + xr.DataArray([1.0, 1.0, -0.5, 1.0], dims="x", coords={"x": [0, 1, 2, 3]})).isel(x=[3, 2, 1, 0])   # crossed at label 2
+    ob = xr.DataArray([2.0, 2.0, 1.0, 5.0], dims="x", coords={"x": [0, 1, 2, 3]})
+    nanp = xr.DataArray([0.1, float("nan"), 0.6, 0.2, 1.3, 0.4], dims="x")
+    nanpb = xr.DataArray([0.0, 1.0, 1.0, 0.0, 1.0, 0.0], dims="x")
+    nancdf = xr.DataArray([[0.0, float("nan"), 1.0], [0.0, 0.5, 1.3]], dims=["s", "threshold"], coords={"threshold": [0.0, 1.0, 2.0]})
+    out += [
+        ("quantile_interval_score valid interval stored in reversed coordinate order", lambda: C.quantile_interval_score(lo, up_rev, ob, 0.1, 0.9), "ok"),
+        ("quantile_interval_score crossed at one label, stored in reversed coordinate order", lambda: C.quantile_interval_score(lo, up_cross, ob, 0.1, 0.9), "rej"),
+        ("brier_score fcst with a NaN and a value 1.3", lambda: P.brier_score(nanp, nanpb), "rej"),
+        ("roc_curve_data fcst with a NaN and a value 1.3", lambda: P.roc_curve_data(nanp, nanpb, [0, 0.5, 1]), "rej"),
+        ("crps_cdf cdf with a NaN and a value 1.3", lambda: P.crps_cdf(nancdf, xr.DataArray([1.0, 1.0], dims=["s"])), "rej"),
+        ("risk_matrix_score fcst with a NaN and a value 1.3",
+         lambda: risk_matrix_score(xr.DataArray([[float("nan"), 1.0], [1.3, 0.5]], dims=["s", "sev"], coords={"sev": [0, 1]}),
+                                   xr.DataArray([[0.0, 1.0], [1.0, 0.0]], dims=["s", "sev"], coords={"sev": [0, 1]}), dw, "sev", "pt"), "rej"),
+        ("roc_curve_data fcst with NaN inside [0,1]", lambda: P.roc_curve_data(nanp.where(nanp <= 1, 0.5), nanpb, [0, 0.5, 1]), "ok"),
+    ]
     for w, e in (((0, 1), "rej"), ((1, 0), "rej"), ((1, 1), "ok"), ((3, 4), "ok"), ((4, 4), "rej"), ((3, 5), "rej")):
         out.append((f"fss window_size={w} on a 3x4 field", lambda w=w: fss_2d_single_field(fld, fld, event_threshold=0.5, window_size=w), e))
     for h, e in ((0, "rej"), (1, "ok"), (4, "ok"), (5, "rej"), (1.5, "rej"), (-1, "rej")):
